@@ -738,6 +738,40 @@ def cancel_nested(ctx, n):
                      family='cancel-nested')
 
 
+def cancel_in_borrow(ctx, n):
+    """directed family: a task is cancelled while it holds borrowed resources inside an until-block, in the time step of
+    the until-deadline or around it (cancel issued before or after the deadline's wake-up).  From the text: when the
+    cancel is issued while the task is still suspended in the block, the task ends CANCELLED and its awaiter gets
+    TaskCancelled(task, token) in that step; the resources are given back."""
+    from harness import dsl
+    for _ in range(n):
+        d = ctx.rng.choice([1, 2, 3])
+        dc = d + ctx.rng.choice([0, 0, 0, -1])
+        dc = max(dc, 0)
+        tok = ctx.rng.choice([3, 7])
+        # (`time >= d`: its trigger activity notifies the block at d, AFTER the canceller - whose timer was queued first -
+        # has issued the cancel; a `time + d` deadline would be queued for the worker before the cancel and win)
+        worker = [['until', 2, ['after', d], [['borrow', 0, 2, 101, [['await', ['delay', d + 5]], ['log', 4]]], ['log', 5]]],
+                  ['log', 6], ['await', ['delay', 1]], ['log', 8]]
+        canceller = [['await', ['delay', dc]], ['cancel', 1, tok],
+                     ['try', [['await_task', 1]], [[['task_cancelled'], [['log', 7]]], [['exception'], [['log', 9]]]], []],
+                     ['log', 10], ['await', ['delay', 3]], ['level', 0]]
+        # the canceller's timer is queued BEFORE the worker starts, hence before the worker's until-deadline timer
+        body = [['do', 1, 1, ['now'], False, worker]] + canceller
+        sc = dict(start=0, till=None, roots=[[['scope', 1, body], ['log', 11]]], nflags=1, tracked=[0], nlocks=1,
+                  nqueues=1, nchans=1, res=[[False, 4]])
+        tr, info = dsl.run_scenario(sc)
+        ctx.count(sc, nontrivial=True)
+        ctx.bump('family:cancel-in-borrow')
+        logs = [(e[0], e[2]) for e in tr if len(e) == 3 and e[1] == 1]
+        levels = [e for e in tr if len(e) == 4 and e[1] == 30]
+        want = [(dc, 7), (dc, 10), (dc + 3, 11)]
+        if logs != want or info['final'][0] != 90 or not levels or levels[-1][3] != 4:
+            ctx.fail(sc, 'task cancelled at %r while holding borrowed resources inside until(time >= %r): logged %r, levels %r, run '
+                         'ended with %r; expected %r, level 4 and a normal end' % (dc, d, logs, levels, info['final'], want),
+                     family='cancel-in-borrow')
+
+
 def prestart_cancel(ctx, n):
     """directed family: the creator awaits a fresh task at once (it subscribes before the task's first activation) and an
     activity already queued in that time step cancels the task before it starts.  From the text: none of the task's
@@ -771,6 +805,7 @@ def run(ctx):
     _run_vertical(ctx)
     cancel_nested(ctx, ctx.n(30, 400))
     prestart_cancel(ctx, ctx.n(30, 400))
+    cancel_in_borrow(ctx, ctx.n(30, 400))
     # second, independent tie: task trees with cancels and status probes on the whole-program machine (whole-trace correspondence)
     from harness import machine_prop
     machine_prop.run(ctx, [('trees', 120, 3000, {})], [])
